@@ -267,6 +267,18 @@ MarkEnd(m) ==
   /\ inflight' = inflight \ {m}
   /\ UNCHANGED <<nobj, oaddr, otype, flag, nops, carried, owed>>
 
+\* MarkHostHealthy / MarkHostUnhealthy as ONE step (both halves with nothing in between); not part
+\* of Next - used where the subject is not the window between the two halves (HostSetPub)
+MarkAtomic(o, k) ==
+  /\ nops < MaxOps /\ o \in 1..nobj
+  /\ LET want == (k = "healthy")
+         fl1 == [flag EXCEPT ![o] = want]
+     IN IF flag[o] = want
+        THEN UNCHANGED <<flag, removed, all, hmain, hbackup, cache>>
+        ELSE flag' = fl1 /\ Install(MarkEndP(Cur, fl1, o, k))
+  /\ nops' = nops + 1
+  /\ UNCHANGED <<nobj, oaddr, otype, inflight, carried, owed>>
+
 Next ==
   \/ \E a \in Addrs, t \in Types : AddFresh(a, t) \/ RemoveFresh(a, t)
   \/ \E o \in Objs : AddExisting(o) \/ RemoveExisting(o)
